@@ -75,8 +75,9 @@ def sim_config_for(scenario) -> Dict[str, Any]:
         stub = s.get("stub", "stub")
         name = f"N{i}"
         if tr == "stock":
-            cls = seams.STUB_CLASSES[stub].__name__
-            e = {"python": f"dsim.stubs:{cls}"}
+            k = seams.STUB_CLASSES[stub]
+            attr = next(n for n, v in vars(__import__(k.__module__, fromlist=["x"])).items() if v is k)
+            e = {"python": f"{k.__module__}:{attr}"}
         elif tr == "gated":
             e = {"dsim": stub}
         elif tr == "remote":
